@@ -28,6 +28,6 @@ CFG = {
     "assumptions": ["uid/gid changes only to the current ids (sandbox runs as one user)", "runs twice: tiny-std with the `start` feature (binary c13) and without it (binary c13ns)", "Environment::Inherit needs the start-up code of a no-libc binary: sub-check start-probe starts the no-libc probe-spawn with a generated raw environment block and compares what the spawned helper sees",
                     "ownership of a Stdio::RawFd descriptor is undocumented: both 'closed by spawn' and 'left open' are accepted and recorded"],
     "required_classes": ["spawn:ok-dump-verified", "spawn:fail-pipe2", "spawn:fail-fork", "spawn:fail-child-dup2", "spawn:fail-child-chdir", "spawn:fail-child-closure",
-                         "spawn:fail-child-execve", "spawn:sync-read-eintr", "spawn:stdio-pipe", "spawn:stdio-null", "spawn:stdio-rawfd", "spawn:env-provided", "spawn:command-reused", "spawn:caller-std-fd-closed", "spawn:status-collected-by-try_wait-then-wait", "spawn:try_wait-before-wait", "start-probe:inherit-under-start", "start-probe:provided-under-start"],
+                         "spawn:fail-child-execve", "spawn:sync-read-eintr", "spawn:stdio-pipe", "spawn:stdio-null", "spawn:stdio-rawfd", "spawn:env-provided", "spawn:command-reused", "spawn:command-reused-after-failed-spawn", "spawn:caller-std-fd-closed", "spawn:status-collected-by-try_wait-then-wait", "spawn:try_wait-before-wait", "start-probe:inherit-under-start", "start-probe:provided-under-start"],
     "timeout_quick": 900, "timeout_thorough": 7200,
 }
